@@ -112,6 +112,7 @@ def findConflict (s : Schema) (d : Document) :
     Nat → Name → AstAndDef → AstAndDef → Bool → MState → Option Conflict × MState
   | 0, _, _, _, _, st => (none, { st with stuck := true })
   | n + 1, key, a, b, parentsExclusive, st =>
+    if st.stuck then (none, st) else      -- a stack overflow ends everything
     let me := parentsExclusive ||
       (optName a.parent != optName b.parent && optIsObject a.parent && optIsObject b.parent)
     if !me && a.field.name != b.field.name then
@@ -134,6 +135,7 @@ def conflictsBetween (s : Schema) (d : Document) :
     Nat → Bool → FieldMap → FieldMap → MState → MRes
   | 0, _, _, _, st => ([], { st with stuck := true })
   | n + 1, me, fm1, fm2, st =>
+    if st.stuck then ([], st) else
     fm1.foldl (fun (acc : MRes) (kv : Name × List AstAndDef) =>
       match alGet fm2 kv.1 with
       | none => acc
@@ -148,6 +150,7 @@ def betweenSubSelectionSets (s : Schema) (d : Document) :
     Nat → Bool → Option Name → List Selection → Option Name → List Selection → MState → MRes
   | 0, _, _, _, _, _, st => ([], { st with stuck := true })
   | n + 1, me, pn1, sel1, pn2, sel2, st =>
+    if st.stuck then ([], st) else
     let c1 := fieldsAndFragmentNames s (pn1.bind s.typeByName) sel1
     let c2 := fieldsAndFragmentNames s (pn2.bind s.typeByName) sel2
     let r := conflictsBetween s d n me c1.1 c2.1 st
@@ -164,6 +167,7 @@ def fieldsAndFragment (s : Schema) (d : Document) :
     Nat → FieldMap → Name → Bool → MState → MRes
   | 0, _, _, _, st => ([], { st with stuck := true })
   | n + 1, fm, fragName, me, st =>
+    if st.stuck then ([], st) else
     match d.fragByName fragName with
     | none => ([], st)
     | some frag =>
@@ -186,6 +190,7 @@ def betweenFragments (s : Schema) (d : Document) :
     Nat → Name → Name → Bool → MState → MRes
   | 0, _, _, _, st => ([], { st with stuck := true })
   | n + 1, n1, n2, me, st =>
+    if st.stuck then ([], st) else
     if n1 == n2 then ([], st)
     else if st.compared.containsPair n1 n2 me then ([], st)
     else
